@@ -228,7 +228,7 @@ func newEvWorld(algs []string, cc Conc, d *domains) *evWorld {
 		if err != nil {
 			fatal("encoding %s: %v", id, err)
 		}
-		w.enc[id] = b
+		w.enc[id] = append([]byte{}, b...) // own copy: the harness must not depend on the library not reusing the slice
 	}
 	// the strongest adversary: an honest signature for every (key, algorithm, claims-set), and for bytes that are
 	// no claims map at all (signed by the same keys for some other purpose)
